@@ -219,15 +219,20 @@ SECTION_BASE: Dict[str, Dict[str, Any]] = {
 }
 # Sections the harness knows how to fill.  A flag the code names but the table lacks is never set by the generator (noted in
 # the evidence); a member the template gains is still caught by the field-keys clause on every payload.
-FLAG_LIST: List[Tuple[str, int]] = [(f.name, int(f.value)) for f in CF if f.name in SECTION_BASE]
+# Section bits of the wire format (LLViewerObject compressed update), NOT read from the code under test: the generator must not
+# follow an implementation that renumbers or drops a flag.
+REF_FLAGS: Dict[str, int] = {"SCRATCHPAD": 0x001, "TREE": 0x002, "TEXT": 0x004, "PARTICLES": 0x008, "SOUND": 0x010, "PARENT_ID": 0x020,
+                             "TEXTURE_ANIM": 0x040, "ANGULAR_VELOCITY": 0x080, "NAME_VALUES": 0x100, "MEDIA_URL": 0x200,
+                             "PARTICLES_NEW": 0x400}
+assert set(REF_FLAGS) == set(SECTION_BASE)
+FLAG_LIST: List[Tuple[str, int]] = list(REF_FLAGS.items())
 FLAG_VALUE = dict(FLAG_LIST)
 FLAGS_UNKNOWN_TO_HARNESS = [f.name for f in CF if f.name not in SECTION_BASE]
-if set(SECTION_BASE) - set(FLAG_VALUE):
-    raise HarnessError(f"CompressedFlags lost members the harness fills: {sorted(set(SECTION_BASE) - set(FLAG_VALUE))}")
+FLAGS_DIFFERENT_IN_CODE = sorted(n for n, v in REF_FLAGS.items() if n not in CF.__members__ or int(CF[n].value) != v)
 ALL_FLAGS = 0
 for _n, _v in FLAG_LIST:
     ALL_FLAGS |= _v
-_NAMED_BITS = 0
+_NAMED_BITS = ALL_FLAGS
 for _f in CF:
     _NAMED_BITS |= int(_f.value)
 FREE_BITS = [1 << b for b in range(32) if not (1 << b) & _NAMED_BITS]  # flag bits no section is attached to
@@ -257,15 +262,113 @@ def build(flags: int, pcode, overrides: Optional[dict] = None, state: int = 0x12
     return d
 
 
+class GenFailure(Exception):
+    """Library code refused (or mis-sized) a value while a payload was being built: reported as a violation, never a crash."""
+
+    def __init__(self, member: str, exc: BaseException):
+        super().__init__(f"{member}: {exc!r}")
+        self.member, self.exc = member, exc
+
+
+# Fixed parts of the wire layout, written down from the protocol (LLViewerObject::processUpdateMessage, OUT_FULL_COMPRESSED and
+# the ObjectUpdate message template for the prim parameters), independent of both decoders under test.
+REF_HEADER = struct.Struct("<16sIBBIBB3f3f3fI16s")
+REF_HEADER_LAYOUT = (("FullID", 16), ("ID", 4), ("PCode", 1), ("State", 1), ("CRC", 4), ("Material", 1), ("ClickAction", 1), ("Scale", 12),
+                     ("Position", 12), ("Rotation", 12), ("Flags", 4), ("OwnerID", 16))
+REF_PRIM_LAYOUT = (("PathCurve", "B"), ("ProfileCurve", "B"), ("PathBegin", "H"), ("PathEnd", "H"), ("PathScaleX", "B"), ("PathScaleY", "B"),
+                   ("PathShearX", "B"), ("PathShearY", "B"), ("PathTwist", "b"), ("PathTwistBegin", "b"), ("PathRadiusOffset", "b"),
+                   ("PathTaperX", "b"), ("PathTaperY", "b"), ("PathRevolutions", "B"), ("PathSkew", "b"), ("ProfileBegin", "H"),
+                   ("ProfileEnd", "H"), ("ProfileHollow", "H"))
+
+
+def _shared(member: str, spec: Any, val: Any) -> bytes:
+    """Bytes of a complex section through the module-level template BOTH decoders share (TE, ExtraParams, particle block)."""
+    w = se.BufferWriter("<")
+    try:
+        w.write(spec, val)
+    except Exception as e:
+        raise GenFailure(member, e)
+    return bytes(w.buffer)
+
+
+def wire_state(pcode: Any, state: Any) -> int:
+    st = int(state)
+    if int(pcode) == 9:  # PRIMITIVE: attachment point, nibbles swapped on the wire
+        return ((st & 0xF0) >> 4) | ((st & 0x0F) << 4)
+    return st
+
+
 def encode(d: dict) -> Tuple[bytes, List[Tuple[int, str]]]:
-    """Template serialize with member tracking: (payload, [(start offset, top-level member)])."""
-    w = se.MemberTrackingBufferWriter("<")
-    w.write(SER.TEMPLATE, d)
+    """Reference wire encoder: (payload, [(start offset, top-level member)]).  Fixed-layout parts and the simple sections are
+    packed by hand; only TextureEntry, ExtraParams and the particle blocks go through the shared sub-templates."""
+    buf = bytearray()
     tops: List[Tuple[int, str]] = []
-    for pos, stack in w.member_positions:
-        if len(stack) == 1:
-            tops.append((pos, stack[0]))
-    return w.copy_buffer(), tops
+
+    def put(member: str, data: bytes):
+        tops.append((len(buf), member))
+        buf.extend(data)
+
+    sc, po, ro = d["Scale"], d["Position"], d["Rotation"]
+    flags = int(d["Flags"])
+    hdr = REF_HEADER.pack(d["FullID"].bytes, int(d["ID"]), int(d["PCode"]), wire_state(d["PCode"], d["State"]), int(d["CRC"]),
+                          int(d["Material"]), int(d["ClickAction"]), sc.X, sc.Y, sc.Z, po.X, po.Y, po.Z, ro.X, ro.Y, ro.Z,
+                          flags, d["OwnerID"].bytes)
+    off = 0
+    for name, size in REF_HEADER_LAYOUT:
+        put(name, hdr[off:off + size])
+        off += size
+    F = REF_FLAGS
+    if flags & F["ANGULAR_VELOCITY"]:
+        v = d["AngularVelocity"]
+        put("AngularVelocity", struct.pack("<3f", v.X, v.Y, v.Z))
+    if flags & F["PARENT_ID"]:
+        put("ParentID", struct.pack("<I", d["ParentID"]))
+    if flags & F["TREE"]:
+        put("TreeSpecies", struct.pack("<B", d["TreeSpecies"]))
+    if flags & F["SCRATCHPAD"]:
+        put("ScratchPad", struct.pack("<I", len(d["ScratchPad"])) + bytes(d["ScratchPad"]))
+    if flags & F["TEXT"]:
+        put("Text", d["Text"].encode("utf8") + b"\x00")
+        if len(d["TextColor"]) != 4:
+            raise HarnessError("TextColor must be 4 bytes")
+        put("TextColor", bytes(d["TextColor"]))
+    if flags & F["MEDIA_URL"]:
+        put("MediaURL", d["MediaURL"].encode("utf8") + b"\x00")
+    if flags & F["PARTICLES"]:
+        ps = _shared("PSBlock", tmpls.PSBLOCK_TEMPLATE, d["PSBlock"])
+        if len(ps) != 86:
+            raise GenFailure("PSBlock", ValueError(f"legacy particle block encodes to {len(ps)} bytes, the wire format has 86"))
+        put("PSBlock", ps)
+    put("ExtraParams", _shared("ExtraParams", tmpls.EXTRA_PARAM_COLLECTION, d["ExtraParams"]))
+    if flags & F["SOUND"]:
+        put("Sound", d["Sound"].bytes)
+        put("SoundGain", struct.pack("<f", d["SoundGain"]))
+        put("SoundFlags", struct.pack("<B", int(d["SoundFlags"])))
+        put("SoundRadius", struct.pack("<f", d["SoundRadius"]))
+    if flags & F["NAME_VALUES"]:
+        lines = [f"{n.name} {n.type.value} {n.rw.value} {n.sendto.value} {n.value}" for n in d["NameValue"]]
+        put("NameValue", "\n".join(lines).encode("utf8") + b"\x00")
+    for name, fmt in REF_PRIM_LAYOUT:
+        put(name, struct.pack("<" + fmt, d[name]))
+    te = b"" if d["TextureEntry"] is None else _shared("TextureEntry", tmpls.TE_SERIALIZER, d["TextureEntry"])
+    put("TextureEntry", struct.pack("<I", len(te)) + te)
+    if flags & F["TEXTURE_ANIM"]:
+        ta = d["TextureAnim"]
+        put("TextureAnim", struct.pack("<IBbBBfff", 16, int(ta.Mode), ta.Face, ta.SizeX, ta.SizeY, ta.Start, ta.Length, ta.Rate))
+    if flags & F["PARTICLES_NEW"]:
+        put("PSBlockNew", _shared("PSBlockNew", tmpls.PSBLOCK_TEMPLATE, d["PSBlockNew"]))
+    return bytes(buf), tops
+
+
+def template_encode(d: dict) -> Tuple[Optional[bytes], str, Optional[BaseException]]:
+    """The template's own encoding of d: (bytes | None, member being written when it raised, exception)."""
+    w = se.MemberTrackingBufferWriter("<")
+    try:
+        w.write(SER.TEMPLATE, d)
+    except Exception as e:
+        last = w.member_positions[-1][1][0] if w.member_positions else "?"
+        return None, str(last), e
+    return w.copy_buffer(), "", None
 
 
 def member_at(tops: List[Tuple[int, str]], off: int) -> str:
@@ -513,18 +616,30 @@ def same_norm(got: Any, exp: Any, path: str) -> Optional[str]:
 
 
 # ---------------------------------------------------------------------------------------------------------- oracle
-def judge(part: Part, p: bytes, origin: str, site_hint: str, witness: dict, tops: Optional[List[Tuple[int, str]]] = None) -> str:
+def judge(part: Part, p: bytes, origin: str, site_hint: str, witness: dict, tops: Optional[List[Tuple[int, str]]] = None,
+          d: Optional[dict] = None) -> str:
     """Evaluate every clause on payload ``p``.  origin 'generated': p came out of template.serialize (template clauses
     are asserted); origin 'mutated': p is judged only if well-formed.  Returns the outcome class."""
     generated = origin == "generated"
     part.count("evaluations")
+    if generated and d is not None:  # p is the reference encoding of d: the template must encode d to the same bytes
+        enc, member, exc = template_encode(d)
+        if exc is not None:
+            part.violation("template-encode-raises", f"Data.{member}", witness,
+                           f"template.serialize refused a generated value the wire format can carry: {member}={d.get(member)!r}: {exc!r}")
+        elif enc != p:
+            i = next((j for j in range(min(len(p), len(enc))) if p[j] != enc[j]), min(len(p), len(enc)))
+            m = member_at(tops, i) if tops else site_hint
+            part.violation("template-encode", f"Data.{m}", witness,
+                           f"template.serialize(generated value) differs from the reference wire encoding at offset {i} (member {m}): "
+                           f"template {len(enc)} B ...{enc[max(0, i - 2):i + 6].hex()}, reference {len(p)} B ...{p[max(0, i - 2):i + 6].hex()}")
     try:
         t = SER.deserialize(None, p)
         for k in t:
             t[k] = force(t[k])
     except Exception as e:
         if generated:
-            part.violation("template-decode", f"Data.{site_hint}", witness, f"template cannot decode its own encoding: {e!r}")
+            part.violation("template-decode", f"Data.{site_hint}", witness, f"template cannot decode a generated payload: {e!r}")
             return "template-decode-fails"
         part.count("mutated_rejected_by_template")
         return "rejected:" + type(e).__name__
@@ -624,29 +739,60 @@ _REPS: List[Tuple[str, bytes, List[Tuple[int, str]]]] = []
 _THOROUGH = False
 
 
-def gen_payload(flags: int, pcode, overrides: Optional[dict], state: int = 0x12) -> Tuple[bytes, List[Tuple[int, str]]]:
+def gen_case(flags: int, pcode, overrides: Optional[dict], state: int = 0x12) -> Tuple[bytes, List[Tuple[int, str]], dict]:
+    """(reference payload, member map, generated dict).  GenFailure = a shared sub-template refused a generated value."""
     ov = dict(overrides or {})
     extra = ov.pop("__extra_flag_bits", 0)
     d = build(flags, pcode, ov, state)
     d["Flags"] = flags | extra
+    p, tops = encode(d)
+    return p, tops, d
+
+
+def gen_payload(flags: int, pcode, overrides: Optional[dict], state: int = 0x12) -> Tuple[bytes, List[Tuple[int, str]]]:
+    p, tops, _ = gen_case(flags, pcode, overrides, state)
+    return p, tops
+
+
+def gen_failure_violation(sink, e: GenFailure, case: str, gen: dict) -> None:
+    sink.count("evaluations")
+    sink.count("generation_refused")
+    sink.violation("template-encode-raises", f"Data.{e.member}", {"kind": "gen", "case": case, "gen": gen},
+                   f"{case}: the shared {e.member} template refused a generated value the wire format can carry: {e.exc!r}")
+
+
+def run_gen(part: Part, family: str, flags: int, pc_value: int, factor_idx: Optional[int], wire_st: Optional[int]) -> str:
+    """Build one generated case (A: baseline, B: content variant, S: State wire value) and judge it."""
+    pc = tmpls.PCode(pc_value)
+    gen = {"family": family, "flags": flags, "pcode": pc_value, "factor": factor_idx, "state": wire_st}
+    if family == "B":
+        factor, variant, _, ov = _FACTORS[factor_idx] if _FACTORS else factor_table()[factor_idx]
+        case, hint, state = f"B {factor}/{variant} flags={flags:#x} pcode={pc.name}", factor, 0x12
+    elif family == "S":
+        ov, hint = None, "State"
+        case = f"B State/{wire_st:#04x} pcode={pc.name} flags={flags:#x}"
+        state = wire_state(pc, wire_st)  # decoded form of the wire byte (the swap is an involution)
+    else:
+        ov, hint, state, case = None, "baseline", 0x12, f"A flags={flags:#x} pcode={pc.name}"
     try:
-        return encode(d)
-    except Exception as e:  # the generator left the template's domain: harness bug, never a finding
-        raise HarnessError(f"generated dict not serialisable (flags={flags:#x} pcode={pcode!r} overrides={sorted(ov)}): {e!r}")
+        p, tops, d = gen_case(flags, pc, ov, state)
+    except GenFailure as e:
+        gen_failure_violation(part, e, case, gen)
+        return "generation-refused"
+    w = {"kind": "payload", "origin": "generated", "hex": p.hex(), "case": case, "tops": tops, "gen": gen}
+    return judge(part, p, "generated", hint, w, tops, d)
 
 
 def _work_flags(chunk: List[int]):
     part = Part()
     for flags in chunk:
         for pc in PCODES:
-            p, tops = gen_payload(flags, pc, None)
-            w = {"kind": "payload", "origin": "generated", "hex": p.hex(), "case": f"A flags={flags:#x} pcode={pc.name}", "tops": tops}
-            res = judge(part, p, "generated", "baseline", w, tops)
+            res = run_gen(part, "A", flags, int(pc), None, None)
             part.count("A_flag_x_pcode")
             part.outcome(("A", flags, int(pc), res))
             part.mark_nontrivial(("A", flags, int(pc)))
             if flags == 0x155 and pc == tmpls.PCode.PRIMITIVE:
-                part.sample({"case": w["case"], "payload_len": len(p), "result": res, "hex_head": p[:40].hex()}, limit=1)
+                part.sample({"case": f"A flags={flags:#x} pcode={pc.name}", "result": res}, limit=1)
     return part.dump()
 
 
@@ -656,14 +802,12 @@ def _work_factor(idx: int):
     req = FLAG_VALUE[flagname] if flagname else None
     for flags in flag_cover(req, _THOROUGH):
         pc = PCODES[(flags ^ idx) % len(PCODES)]
-        p, tops = gen_payload(flags, pc, ov)
-        w = {"kind": "payload", "origin": "generated", "hex": p.hex(), "case": f"B {factor}/{variant} flags={flags:#x} pcode={pc.name}", "tops": tops}
-        res = judge(part, p, "generated", factor, w, tops)
+        res = run_gen(part, "B", flags, int(pc), idx, None)
         part.count("B_content_cases")
         part.outcome(("B", factor, variant, flags, res))
         part.mark_nontrivial(("B", factor, variant, flags))
         if flags == (req or 0):
-            part.sample({"case": w["case"], "payload_len": len(p), "result": res}, limit=1)
+            part.sample({"case": f"B {factor}/{variant} flags={flags:#x} pcode={pc.name}", "result": res}, limit=1)
     return part.dump()
 
 
@@ -674,14 +818,7 @@ def _work_state(pc_index: int):
     covers = flag_cover(None, False) if _THOROUGH else (0, ALL_FLAGS, FLAG_VALUE["PARENT_ID"], FLAG_VALUE["TREE"])
     for st in states:
         for flags in covers:
-            # the template's State adapter rotates nibbles / wraps flags on encode: hand it the decoded form of wire byte st
-            wire = st
-            dec = ((st & 0xF0) >> 4) | ((st & 0x0F) << 4) if pc == tmpls.PCode.PRIMITIVE else st
-            p, tops = gen_payload(flags, pc, None, state=dec)
-            if p[21] != wire:
-                raise HarnessError(f"State wire byte {p[21]:#x} != intended {wire:#x} for {pc!r}")
-            w = {"kind": "payload", "origin": "generated", "hex": p.hex(), "case": f"B State/{st:#04x} pcode={pc.name} flags={flags:#x}", "tops": tops}
-            res = judge(part, p, "generated", "State", w, tops)
+            res = run_gen(part, "S", flags, int(pc), None, st)
             part.count("B_state_x_pcode")
             part.outcome(("S", int(pc), st, flags, res))
             part.mark_nontrivial(("S", int(pc), st, flags))
@@ -738,6 +875,9 @@ def _work_mutate(item: Tuple[int, int, int]):
     return part.dump()
 
 
+_GEN_FAILURES: Dict[str, GenFailure] = {}
+
+
 def representatives() -> List[Tuple[str, bytes, List[Tuple[int, str]]]]:
     P = tmpls.PCode
     specs: List[Tuple[str, int, Any, dict, int]] = [("no-sections/prim", 0, P.PRIMITIVE, {}, 0x12),
@@ -774,7 +914,11 @@ def representatives() -> List[Tuple[str, bytes, List[Tuple[int, str]]]]:
         ov = dict(ov)
         ov["ID"] = 1000 + i  # distinct local IDs so that all representatives live in one cache file
         ov["CRC"] = 0x5000 + i
-        p, tops = gen_payload(flags, pc, ov, st)
+        try:
+            p, tops = gen_payload(flags, pc, ov, st)
+        except GenFailure as e:  # reported once by run(); the representative is left out
+            _GEN_FAILURES[f"representative {name}"] = e
+            continue
         reps.append((name, p, tops))
     return reps
 
